@@ -646,6 +646,12 @@ def run(ctx):
                 r.check(fin, "%s/only-finite-floats" % fn, b.loc(line), "the float is built only when is_finite() holds", "a float is built without testing that it is finite (guards: %s)" % [(d[:30], l) for d, l, _ in g])
         r.check(n >= 2, "scope/float-sites", "-", "%d tokenizer functions build floats (streaming and complete forms)" % n)
 
+    with ctx.rule("C09.R7", "T5", "typed readers convert every kind of number the tokenizer may deliver (shared with C16.R5)", floor=9) as r:
+        # a printed integer comes back as Int, UInt, BigInt or BigUint depending on its magnitude and sign (i64::MIN is tokenised as BigInt): a typed
+        # reader that rejects - or ignores the value of - one of these kinds cannot read back what the printers wrote for some value of its own type
+        from rules.C16 import numeric_kind_rules
+        numeric_kind_rules(r, ctx, ctx.crate("swimos_form"))
+
     with ctx.rule("C09.R5", "T9", "panic audit: parser, decoder, literal and recognizer modules", floor=15) as r:
         ALLOW = {
             ("unescape", "unwrap", "to_digit"): "to_digit(16) after is_ascii_hexdigit(c)",
